@@ -3,7 +3,7 @@ from collections.abc import Mapping, Sequence
 import polars as pl
 from pydantic import BaseModel, ConfigDict, Field
 
-from ..attributes import TableAttributes
+from ..attributes import BroadcastValue, TableAttributes
 from ..fonts_mapping import FontName, FontNumber
 from ..strwidth import get_string_width
 
@@ -311,12 +311,22 @@ class PageBreakCalculator(BaseModel):
                 col_name = df.columns[col_idx]
                 cell_value = str(df[col_name][row_idx])
 
-                # Font logic
+                # Font logic: use the cell's own font and size when available
                 actual_font_size = font_size
                 actual_font = 1
 
-                if table_attrs:
-                    pass
+                if table_attrs is not None:
+                    attr_dim = (df.height, max(1, len(col_widths)))
+                    if table_attrs.text_font_size is not None:
+                        actual_font_size = BroadcastValue(
+                            value=table_attrs.text_font_size, dimension=attr_dim
+                        ).iloc(row_idx, width_idx)
+                    if table_attrs.text_font is not None:
+                        font_value = BroadcastValue(
+                            value=table_attrs.text_font, dimension=attr_dim
+                        ).iloc(row_idx, width_idx)
+                        if isinstance(font_value, int) and 1 <= font_value <= 10:
+                            actual_font = font_value
 
                 text_width = get_string_width(
                     cell_value,
